@@ -37,6 +37,28 @@ fn verif_replay() {
             }
             println!("VERIF-OUTCOME {}", serde_json::json!({"panicked": panicked, "mismatch": mismatch, "rows": rows}));
         }
+        "map_v4" => {
+            // the address a listener records for its peer: only an IPv4-mapped address (::ffff:a.b.c.d) stands for an IPv4 peer
+            let mut rows = vec![];
+            let mut mismatch = false;
+            for c in a["addrs"].as_array().unwrap() {
+                let text = c.as_str().unwrap().to_string();
+                let addr: std::net::SocketAddr = match text.parse() { Ok(x) => x, Err(_) => continue };
+                let got = crate::common::try_map_v4_addr(addr);
+                let exp = match addr {
+                    std::net::SocketAddr::V6(v6) => {
+                        let o = v6.ip().octets();
+                        if o[..10].iter().all(|x| *x == 0) && o[10] == 0xff && o[11] == 0xff {
+                            std::net::SocketAddr::from((std::net::Ipv4Addr::new(o[12], o[13], o[14], o[15]), v6.port()))
+                        } else { addr }
+                    }
+                    _ => addr,
+                };
+                if got != exp { mismatch = true; }
+                rows.push(serde_json::json!({"peer": text, "recorded": got.to_string(), "expected": exp.to_string()}));
+            }
+            println!("VERIF-OUTCOME {}", serde_json::json!({"panicked": false, "mismatch": mismatch, "rows": rows}));
+        }
         "accessor" => {
             let field = a["field"].as_str().unwrap().to_string();
             let ctx: ScriptContextRef = Arc::new(create_context(Default::default()));
